@@ -20,7 +20,7 @@ THEOREMS = [("Arc.Fsm.PropsC23", "C23_writer_consistent"),
 MODULES = ["Arc.Fsm.PropsC23"]
 EXTRA = ["theories/Fsm/Tie.vo", "theories/Fsm/PropsC23.vo"]
 TIE_NAME = lib_fsm.TIE_NAME["C23"]
-FAMILIES = ["node", "node", "node", "rbac", "rbac", "node_rbac"]
+FAMILIES = ["node", "node", "node", "rbac", "rbac_cascade", "rbac_cascade", "node_rbac"]
 
 
 def warm():
